@@ -91,6 +91,36 @@ theorem tas_order (tas r s : Rat) (hs0 : 0 ≤ s) (hs1 : s ≤ 1) (hr : 0 ≤ r)
 example : getTasmin 12 8 (1/4) ≤ 12 ∧ 12 ≤ getTasmax 12 8 (1/4) ∧ getTasmax 12 8 (1/4) - getTasmin 12 8 (1/4) = 8 :=
   tas_order 12 8 (1/4) (by decide +kernel) (by decide +kernel) (by decide +kernel)
 
+/-- **The guards of `tas_order` are exact** (session 4): for a positive range the ordering `tasmin ≤ tas ≤ tasmax`
+    holds *iff* `0 ≤ tasskew ≤ 1` — a skew outside `[0, 1]` always produces a `tas` outside `[tasmin, tasmax]`. -/
+theorem tas_order_iff (tas r s : Rat) (hr : 0 < r) :
+    (getTasmin tas r s ≤ tas ∧ tas ≤ getTasmax tas r s) ↔ (0 ≤ s ∧ s ≤ 1) := by
+  unfold getTasmax tasmaxFromTasminAndRange getTasmin
+  constructor
+  · rintro ⟨h1, h2⟩
+    have a : 0 ≤ s * r := by linarith
+    have b : 0 ≤ (1 - s) * r := by nlinarith
+    exact ⟨nonneg_of_mul_nonneg_left a hr, by have := nonneg_of_mul_nonneg_left b hr; linarith⟩
+  · rintro ⟨h0, h1⟩
+    have a : 0 ≤ s * r := mul_nonneg h0 (le_of_lt hr)
+    have b : 0 ≤ (1 - s) * r := mul_nonneg (by linarith) (le_of_lt hr)
+    exact ⟨by linarith, by nlinarith⟩
+
+example : ¬ (getTasmin 12 8 (5/4) ≤ 12 ∧ 12 ≤ getTasmax 12 8 (5/4)) := by
+  rw [tas_order_iff 12 8 (5/4) (by decide +kernel)]; decide +kernel
+
+/-- with a zero range the skew is irrelevant: `tasmin = tas = tasmax` whatever `tasskew` is -/
+theorem tas_order_zero_range (tas s : Rat) : getTasmin tas 0 s = tas ∧ getTasmax tas 0 s = tas := by
+  unfold getTasmax tasmaxFromTasminAndRange getTasmin; constructor <;> ring
+
+/-- a negative range inverts the order for every skew: the guard `tasrange ≥ 0` of `tas_order` is needed -/
+theorem tas_order_neg_range (tas r s : Rat) (hr : r < 0) :
+    getTasmax tas r s < getTasmin tas r s := by
+  unfold getTasmax tasmaxFromTasminAndRange getTasmin; linarith
+
+example : getTasmax 12 (-8) (1/4) < getTasmin 12 (-8) (1/4) :=
+  tas_order_neg_range 12 (-8) (1/4) (by decide +kernel)
+
 /-- and forwards: `tasmin < tasmax`, `tasmin ≤ tas ≤ tasmax` give `tasrange > 0` and `0 ≤ tasskew ≤ 1` -/
 theorem tasskew_range (tas tasmin tasmax : Rat) (h : tasmin < tasmax) (h1 : tasmin ≤ tas) (h2 : tas ≤ tasmax) :
     0 < getTasrange tasmin tasmax ∧ ∃ s, getTasskew tas tasmin tasmax = .ok s ∧ 0 ≤ s ∧ s ≤ 1 := by
@@ -161,6 +191,20 @@ theorem prsnratio_range (pr prsn : Rat) (h : 0 < pr) (h0 : 0 ≤ prsn) (h1 : prs
 
 example : ∃ q, getPrsnratio 8 2 = .ok q ∧ 0 ≤ q ∧ q ≤ 1 :=
   prsnratio_range 8 2 (by decide +kernel) (by decide +kernel) (by decide +kernel)
+
+/-- **The guards of `prsnratio_range` are exact** (session 4): for `pr > 0` the ratio lies in `[0, 1]` *iff* `0 ≤ prsn ≤ pr`. -/
+theorem prsnratio_range_iff (pr prsn : Rat) (h : 0 < pr) :
+    (∃ q, getPrsnratio pr prsn = .ok q ∧ 0 ≤ q ∧ q ≤ 1) ↔ (0 ≤ prsn ∧ prsn ≤ pr) := by
+  constructor
+  · rintro ⟨q, hq, h0, h1⟩
+    unfold getPrsnratio at hq; rw [divE_ok _ _ (ne_of_gt h)] at hq
+    have e : prsn / pr = q := by injection hq
+    subst e
+    exact ⟨by have := mul_nonneg h0 (le_of_lt h); rwa [div_mul_cancel₀ _ (ne_of_gt h)] at this, by rwa [div_le_one h] at h1⟩
+  · rintro ⟨h0, h1⟩; exact prsnratio_range pr prsn h h0 h1
+
+example : ¬ ∃ q, getPrsnratio 8 9 = .ok q ∧ 0 ≤ q ∧ q ≤ 1 := by
+  rw [prsnratio_range_iff 8 9 (by decide +kernel)]; decide +kernel
 
 /-- `prsnratio ≠ 0` and `pr ≠ 0`: `(pr, prsnratio) → prsn → pr` and `→ prsnratio` -/
 theorem pr_roundtrip_rev (pr q : Rat) (h : pr ≠ 0) (hq : q ≠ 0) :
